@@ -200,6 +200,9 @@ func (root *Root) regField(obj *Object, fd *FieldDef, goField string, args ...st
 	meta := obj.meta
 	obj.mu.Unlock()
 	verifYield("regField")
+	// Use the type read while holding the lock from here on, obj.meta can be
+	// written by other goroutines resolving the same type.
+	objMeta := meta
 	if meta.Kind() == reflect.Ptr {
 		meta = meta.Elem()
 	}
@@ -214,8 +217,8 @@ func (root *Root) regField(obj *Object, fd *FieldDef, goField string, args ...st
 			return
 		}
 	}
-	for i := obj.meta.NumMethod() - 1; 0 <= i; i-- {
-		m := obj.meta.Method(i)
+	for i := objMeta.NumMethod() - 1; 0 <= i; i-- {
+		m := objMeta.Method(i)
 		if strings.EqualFold(m.Name, goField) {
 			fd.method = &m.Func
 			break
@@ -239,7 +242,7 @@ func (root *Root) regField(obj *Object, fd *FieldDef, goField string, args ...st
 		}
 		return
 	}
-	return fmt.Errorf("%w: %s is not a field of %s", ErrMeta, goField, obj.meta)
+	return fmt.Errorf("%w: %s is not a field of %s", ErrMeta, goField, objMeta)
 }
 
 func (root *Root) addTypes(types ...Type) error {
